@@ -6,6 +6,7 @@ import Hub.SDK.Bech32
 import Hub.SDK.Paginate
 import Hub.Model.Query
 import Hub.Model.Genesis
+import Hub.Model.Jump
 import Hub.Generated.Proto
 /-
 Line-protocol driver of the model (core-only, runs as `lake env lean --run Main.lean` or as the
@@ -216,17 +217,16 @@ def step (d : Drv) (line : String) : Drv × List String :=
           | none => respond d line "reject:gov" [] true
         | none => respond d line "bad-op" [] false
       | "jump" =>
-        -- `SetCount` of one module, forwards only: the state "as if n identifiers had been issued" (not an `Op` of the
-        -- model's histories; the invariants about counters are monotone in the counter)
+        -- `SetCount` of one module, forwards only (`Hub/Model/Jump.lean`; `Hub.Props.C18Jump`: the invariants survive it)
         let n := (fint f "n").toNat
-        match fget f "module" with
-        | "plan" => if d.s.planCount.getD 0 ≤ n then respond { d with s := { d.s with planCount := some n } } line "accept" [] true
-                    else respond d line "reject:jump" [] true
-        | "subscription" => if d.s.subCount.getD 0 ≤ n then respond { d with s := { d.s with subCount := some n } } line "accept" [] true
-                    else respond d line "reject:jump" [] true
-        | "session" => if d.s.sessCount.getD 0 ≤ n then respond { d with s := { d.s with sessCount := some n } } line "accept" [] true
-                    else respond d line "reject:jump" [] true
-        | _ => respond d line "bad-op" [] false
+        let c? : Option Counter := match fget f "module" with
+          | "plan" => some .plan | "subscription" => some .subscription | "session" => some .session | _ => none
+        match c? with
+        | some c =>
+          match jumpOp d.s c n with
+          | some s' => respond { d with s := s' } line "accept" [] true
+          | none => respond d line "reject:jump" [] true
+        | none => respond d line "bad-op" [] false
       | "mintprobe" => respond d line "accept" [mintProbeLine d.s (fint f "t")] false
       | "query" =>
         match rest with
